@@ -582,8 +582,9 @@ def parse_vc(path, variables=None):
             src_spec = next((f for f in u.fns if (f.alias or f.path.split('::')[-1]) == rest and f is not cur), None)
             if src_spec is None:
                 raise Lost("%s: `like %s` refers to an unknown item" % (path, rest))
-            cur.subs += list(src_spec.subs)
-            cur.hints += list(src_spec.hints)
+            # copied rules are optional here: the other item need not contain every pattern
+            cur.subs += [(a, b, 'sub?') for (a, b, _k) in src_spec.subs]
+            cur.hints += [(k if k.endswith('?') else k + '?', n, rx_, t) for (k, n, rx_, t) in src_spec.hints]
             cur.loops.update(src_spec.loops)
         elif kw == 'novac':
             cur.novac = True
@@ -601,7 +602,7 @@ def parse_vc(path, variables=None):
             assert rest == '<<<'
             b, i = block(i)
             cur.spec += b + '\n'
-        elif kw in ('after', 'before', 'after*', 'before*', 'after*?', 'before*?'):
+        elif kw in ('after', 'before', 'after*', 'before*', 'after*?', 'before*?', 'after?', 'before?'):
             mm = re.match(r'(?:#(\d+)\s+)?/(.*)/\s*<<<$', rest)
             if not mm:
                 raise Lost("%s: bad hint line: %s" % (path, st))
@@ -757,8 +758,12 @@ def splice(item, spec, stats):
         for _ in range(nth):
             m = find_code(body, re.compile(rx), pos)
             if not m:
+                if optional:
+                    break
                 raise Lost("anchor /%s/ #%d not found in %s" % (rx, nth, spec.path))
             pos = m.end()
+        if not m:
+            continue
         for gi in range(1, (m.re.groups or 0) + 1):
             text = text.replace('\\%d' % gi, m.group(gi) or '')
         if where == 'after':
